@@ -51,6 +51,13 @@ CLAIMS = {
         "and column-major types in returning and in-place form with random exact parameters; the matrix after every call, all constructors, mul_point/mul_direction(_2d), Mat4::from(Transform) "
         "(uniform and non-uniform scale, default) and longer random chains are recorded and recomputed by TLC."),
   design="§6 C07, §12"),
+ "C08": dict(
+  technique="TLA+ spec with two layers (corner axioms + entry-wise formulas); TLC model-checks that every formula satisfies its axioms; matrices recorded from the 21 real constructors validated against formula and axioms by TLC trace validation",
+  text=("TLC checks on the specification, for random view volumes over Z_46337 (off-centre and mirrored included), that each projection formula {ortho, frustum, perspective, perspective-fov, (tweaked) "
+        "infinite} x {lh, rh} x {zo, no} sends the eight corners of its view volume to the clip corners after the homogeneous divide with w = +-z, that a perspective matrix is the frustum of the "
+        "symmetric planes it implies and that lh = rh composed with a z mirror - so a wrong textbook sign cannot enter the oracle. Every one of the 21 real constructors is executed in both layouts on "
+        "exact rational planes / field-of-view tokens; each recorded matrix must equal the formula and is also tested directly against the corner axioms by TLC."),
+  design="§6 C08, §12"),
  "C09": dict(
   technique="TLA+ spec of the look-at / change-of-basis axioms over exact rationals (ordered field) model-checked by TLC; matrices recorded from the real code validated against the axioms by TLC trace validation",
   text=("TLC checks over exact rationals that the textbook frame matrix satisfies the look-at axioms and that local_to_basis/basis_to_local place origin and axes and invert each other on "
@@ -58,6 +65,13 @@ CLAIMS = {
         "recorded matrix is tested by TLC against the axioms of the statement (rigid, det +1, eye -> origin, target -> (0,0,+-d) with the sign of the handedness, up in the upper half-plane; model "
         "matrix = inverse, origin -> eye), which determine it uniquely; change-of-basis results are recomputed and re-applied to origin and axes. Exact sampling, not symbolic in eye/target/up."),
   design="§6 C09, §12"),
+ "C10": dict(
+  technique=TRACE_TECH,
+  text=("TLC checks on the specification that Project is the perspective-divided clip position mapped onto the viewport (depth halved only in the negative-one-to-one flavour), that Unproject "
+        "inverts it for invertible matrix pairs and that the pick matrix maps the picked window rectangle in clip coordinates onto the clip square. Every call of world_to_viewport_no/zo, "
+        "viewport_to_world_no/zo (also composed through the real code) and picking_region is executed in both layouts on exact rationals (random small-integer pairs and rigid-view x real-projection "
+        "pairs), recorded and recomputed by TLC; unprojected points are projected again on the specification and the pick matrix is tested against its axiom."),
+  design="§6 C10, §12"),
  "C17": dict(
   technique="TLA+ spec (VekOps/VekOpsAlgo) model-checked by TLC exhaustively per bit width; TLC-emitted result tables replayed into the real code (spec->code conformance)",
   text=("TLC checks exhaustively (every (x,lo,hi) of 5-bit types in quick, 8-bit in thorough) that the declarative operators satisfy the range laws of the "
